@@ -2,7 +2,9 @@ package checks
 
 import (
 	"encoding/json"
+	"errors"
 	"fmt"
+	mrand "math/rand/v2"
 	"sync"
 	"testing"
 
@@ -62,6 +64,11 @@ func squaresTable() *rangeproof.SquaresTable {
 func drawRangeSpec(rt *rapid.T, allowFalse bool) C12Spec {
 	s := C12Spec{LibSeed: rapid.Uint64().Draw(rt, "libseed"), ValSeed: rapid.Uint64().Draw(rt, "valseed")}
 	s.Key = drawKeyName(rt, "key")
+	if wide := kernel.KeyNamesWide(map[bool]int{false: 1024, true: 0}[thorough()]); len(wide) > 0 && rapid.IntRange(0, 9).Draw(rt, "widekey") == 0 {
+		// parameters whose message length differs from the hash length (Lm = 384 or 512, Lh = 256)
+		s.Key = rapid.SampledFrom(wide).Draw(rt, "wide")
+	}
+	lm := int(kernel.GetKey(s.Key).Pk.Params.Lm)
 	n := rapid.IntRange(1, 4).Draw(rt, "nattrs")
 	for i := 0; i < n; i++ {
 		var v *big.Int
@@ -71,9 +78,9 @@ func drawRangeSpec(rt *rapid.T, allowFalse bool) C12Spec {
 		case 1:
 			v = big.NewInt(int64(rapid.IntRange(0, 1<<20).Draw(rt, "medium")))
 		case 2:
-			v = randBits(hrand(rapid.Uint64().Draw(rt, "vs"), 3), rapid.IntRange(1, 255).Draw(rt, "vbits"))
+			v = randBits(hrand(rapid.Uint64().Draw(rt, "vs"), 3), rapid.IntRange(1, lm-1).Draw(rt, "vbits"))
 		default:
-			v = new(big.Int).Sub(pow2(256), big.NewInt(int64(rapid.IntRange(1, 3).Draw(rt, "top"))))
+			v = new(big.Int).Sub(pow2(uint(lm)), big.NewInt(int64(rapid.IntRange(1, 3).Draw(rt, "top"))))
 		}
 		s.Values = append(s.Values, v.String())
 	}
@@ -159,6 +166,12 @@ func buildRangeWorld(r *kernel.Run, s C12Spec) *rangeWorld {
 	for _, v := range s.Values {
 		x, _ := new(big.Int).SetString(v, 10)
 		attrs = append(attrs, x)
+		if rw.key.Wide && uint(x.BitLen()) > rw.key.Pk.Params.Lh {
+			r.Probe("attribute-longer-than-Lh-within-Lm")
+		}
+	}
+	if rw.key.Wide {
+		r.Probe("parameters-with-Lm-not-Lh")
 	}
 	c, l := signCredential(rw.key, newSecret(), attrs)
 	rw.hc = &HeldCred{c, l}
@@ -564,6 +577,69 @@ func execC12(r *kernel.Run, s C12Spec) {
 			}
 		}
 	}
+	// Byzantine holder with a prover of its own: a range proof with an arbitrary descriptor (also signs
+	// other than +-1) for the false claim a*m >= 3m+1000, computed by hand for each relation a verifier
+	// might plausibly check for that descriptor (R^E = S^-v5 R^(P*m) prod C_i^d_i with E = +-k and
+	// P = +-a or +-a*sign). The attribute randomizer is read off the honest builder through the public
+	// API (CreateProof(0) returns the randomizers as responses).
+	{
+		st := s.Stmts[0]
+		m := rw.ms[st.Attr]
+		hh := hrand(s.ValSeed, 1212)
+		signs := []int{0, 2, -2, 3, 1, -1}
+		sign := signs[hh.IntN(len(signs))]
+		a := []uint{1, 1, 2}[hh.IntN(3)]
+		k := new(big.Int).Add(new(big.Int).Mul(m, big.NewInt(3*int64(a))), big.NewInt(1000))
+		if sign == -1 { // the reported claim would be a*m <= k: make that false instead
+			k = new(big.Int).Sub(new(big.Int).Mul(m, big.NewInt(int64(a))), big.NewInt(1))
+		}
+		// control: the same prover with the conventional descriptor, relation and a true claim must be accepted,
+		// otherwise it is no adversary at all
+		if wanted(s.OnlyFault, "byzantine:hand-prover-control") && uint(m.BitLen()) <= rw.key.Pk.Params.Lm {
+			if inner, err := rw.hc.Cred.CreateDisclosureProofBuilder(rw.disclosed, nil, false); err == nil {
+				kc := new(big.Int).Sub(m, big.NewInt(5))
+				if kc.Sign() >= 0 {
+					hb := &handRangeBuilder{inner: inner, pk: rw.key.Pk, index: st.Attr, m: m, sign: 1, a: 1, k: kc, ld: min(160, rw.key.Pk.Params.Lm),
+						E: new(big.Int).Neg(kc), P: big.NewInt(-1), hr: hh}
+					var pl gabi.ProofList
+					if p := guard(func() { pl, err = gabi.ProofBuilderList{hb}.BuildProofList(rw.sess.Context, rw.sess.Nonce, rw.sess.IsSig) }); p == "" && err == nil {
+						if v := verifyWire(mustJSON(pl), rw.sess); v.Accepted {
+							r.Probe("hand-prover-control-accepted")
+						} else {
+							r.Probe("hand-prover-control-rejected")
+						}
+					}
+				}
+			}
+		}
+		hyp := 0
+		for _, e := range []int64{1, -1} {
+			for _, pw := range []int64{-int64(a) * int64(sign), int64(a) * int64(sign), -int64(a), int64(a)} {
+				hyp++
+				id := fmt.Sprintf("byzantine:hand-prover:attr%d:sign%d:a%d:hyp%d", st.Attr, sign, a, hyp)
+				if !wanted(s.OnlyFault, id) || k.Sign() < 0 {
+					continue
+				}
+				inner, err := rw.hc.Cred.CreateDisclosureProofBuilder(rw.disclosed, nil, false)
+				if err != nil {
+					continue
+				}
+				hb := &handRangeBuilder{inner: inner, pk: rw.key.Pk, index: st.Attr, m: m, sign: sign, a: a, k: k, ld: min(160, rw.key.Pk.Params.Lm),
+					E: new(big.Int).Mul(k, big.NewInt(e)), P: big.NewInt(pw), hr: hh}
+				var pl gabi.ProofList
+				if p := guard(func() { pl, err = gabi.ProofBuilderList{hb}.BuildProofList(rw.sess.Context, rw.sess.Nonce, rw.sess.IsSig) }); p != "" || err != nil {
+					r.Probe("byzantine-hand-prover-not-buildable")
+					continue
+				}
+				wb, merr := json.Marshal(pl)
+				if merr != nil {
+					continue
+				}
+				r.Probe("byzantine-hand-prover-built")
+				deliver(id, "byzantine-hand-prover", wb)
+			}
+		}
+	}
 	// range proofs of another credential (other values, same statements where provable) moved into this proof
 	other := buildOtherRangeProof(r, rw, s)
 	if other != nil {
@@ -718,3 +794,98 @@ func (z *zeroRangeBuilder) CreateProof(c *big.Int) gabi.Proof {
 }
 func (z *zeroRangeBuilder) PublicKey() *gabikeys.PublicKey              { return z.pk }
 func (z *zeroRangeBuilder) SetProofPCommitment(*gabi.ProofPCommitment) {}
+
+// handRangeBuilder is a Byzantine holder's own range prover: an honest disclosure builder plus a range
+// proof with a freely chosen descriptor (sign, a, k), computed for the relation
+// R^E = S^-v5 * R^(P*m) * prod C_i^d_i, i.e. sum d_i^2 = E - P*m, by the harness's own arithmetic.
+type handRangeBuilder struct {
+	inner      *gabi.DisclosureProofBuilder
+	pk         *gabikeys.PublicKey
+	index      int
+	m          *big.Int
+	sign       int
+	a          uint
+	k          *big.Int
+	ld         uint
+	E, P       *big.Int
+	hr         *mrand.Rand
+	d, v       []*big.Int
+	rd, rv, cs []*big.Int
+	v5, rv5    *big.Int
+}
+
+func modExpSigned(b, e, n *big.Int) *big.Int {
+	if e.Sign() >= 0 {
+		return new(big.Int).Exp(b, e, n)
+	}
+	inv := new(big.Int).ModInverse(b, n)
+	if inv == nil {
+		return big.NewInt(0)
+	}
+	return new(big.Int).Exp(inv, new(big.Int).Neg(e), n)
+}
+
+func (h *handRangeBuilder) Commit(rz map[string]*big.Int) ([]*big.Int, error) {
+	list, err := h.inner.Commit(rz)
+	if err != nil {
+		return nil, err
+	}
+	probe, ok := h.inner.CreateProof(big.NewInt(0)).(*gabi.ProofD)
+	if !ok || probe.AResponses[h.index] == nil {
+		return nil, errors.New("attribute not hidden")
+	}
+	rm := probe.AResponses[h.index]
+	mm := h.m
+	if uint(mm.BitLen()) > h.pk.Params.Lm {
+		return nil, errors.New("hashed attribute")
+	}
+	T := new(big.Int).Sub(h.E, new(big.Int).Mul(h.P, mm))
+	if T.Sign() < 0 {
+		return nil, errors.New("target negative under this hypothesis")
+	}
+	h.d, err = (&rangeproof.FourSquaresSplitter{}).Split(T)
+	if err != nil || len(h.d) != 4 {
+		return nil, errors.New("no split")
+	}
+	par := h.pk.Params
+	N, R, S := h.pk.N, h.pk.R[h.index], h.pk.S
+	h.v5 = big.NewInt(0)
+	tm := big.NewInt(1)
+	var ts []*big.Int
+	for i := range h.d {
+		if uint(h.d[i].BitLen()) > h.ld {
+			return nil, errors.New("square root too long for l_d")
+		}
+		h.v = append(h.v, randBits(h.hr, int(par.Lm)))
+		h.rd = append(h.rd, randBits(h.hr, int(h.ld+par.Lh+par.Lstatzk)))
+		h.rv = append(h.rv, randBits(h.hr, int(par.Lm+par.Lh+par.Lstatzk)))
+		c := new(big.Int).Exp(R, h.d[i], N)
+		c.Mul(c, new(big.Int).Exp(S, h.v[i], N)).Mod(c, N)
+		h.cs = append(h.cs, c)
+		h.v5.Add(h.v5, new(big.Int).Mul(h.d[i], h.v[i]))
+		tm.Mul(tm, new(big.Int).Exp(c, h.rd[i], N)).Mod(tm, N)
+		t := new(big.Int).Exp(R, h.rd[i], N)
+		t.Mul(t, new(big.Int).Exp(S, h.rv[i], N)).Mod(t, N)
+		ts = append(ts, t)
+	}
+	h.rv5 = randBits(h.hr, int(par.Lm+h.ld+2+par.Lh+par.Lstatzk))
+	tm.Mul(tm, modExpSigned(S, new(big.Int).Neg(h.rv5), N)).Mod(tm, N)
+	tm.Mul(tm, modExpSigned(R, new(big.Int).Mul(h.P, rm), N)).Mod(tm, N)
+	list = append(list, tm)
+	return append(list, ts...), nil
+}
+
+func (h *handRangeBuilder) CreateProof(c *big.Int) gabi.Proof {
+	pd := h.inner.CreateProof(c).(*gabi.ProofD)
+	resp := func(secret, rnd *big.Int) *big.Int { return new(big.Int).Add(new(big.Int).Mul(c, secret), rnd) }
+	rp := &rangeproof.Proof{V5Response: resp(h.v5, h.rv5), Ld: h.ld, Sign: h.sign, A: h.a, K: new(big.Int).Set(h.k)}
+	for i := range h.d {
+		rp.Cs = append(rp.Cs, h.cs[i])
+		rp.DResponses = append(rp.DResponses, resp(h.d[i], h.rd[i]))
+		rp.VResponses = append(rp.VResponses, resp(h.v[i], h.rv[i]))
+	}
+	pd.RangeProofs = map[int][]*rangeproof.Proof{h.index: {rp}}
+	return pd
+}
+func (h *handRangeBuilder) PublicKey() *gabikeys.PublicKey              { return h.pk }
+func (h *handRangeBuilder) SetProofPCommitment(*gabi.ProofPCommitment) {}
